@@ -8,6 +8,8 @@ package main
 //   c06 pct_print ( v e )    Percentage.String, MarshalText, struct field
 //   c06 pct_parse x<str>     PercentageFromString, UnmarshalText
 //   c06 pct_parse_json / pct_parse_field
+//   c06 all x<str> [x<json>] every text entry point at once (see the case below)
+//   c06 all_a / all_p x<str> [x<json>]  the amount / percentage readers only
 //   c06 matches x<str> / pct_matches x<str>   regexp match of the pattern JSONSchema() declares
 // results: ( ok ( v e ) ), ( null ) when the receiver was left untouched, ( err ) (kind only),
 // ( err entry-points-differ ... ) when two entry points that must agree do not.
@@ -155,6 +157,73 @@ func init() {
 			}{c06PctSentinel}
 			err := json.Unmarshal([]byte(`{"a":`+string(a[1].S)+`}`), &st)
 			return []V{c06ReadPct(st.A, err)}
+		case "all":
+			// every text entry point on one string: a[1] the string, a[2] (optional, non-empty) a
+			// JSON encoding of it for the struct-field route
+			s := a[1].S
+			q := append(append([]byte{'"'}, s...), '"')
+			x := c06Sentinel
+			r1 := c06Read(x, x.UnmarshalText(s))
+			if r0 := c06Read(num.AmountFromString(string(s))); !c06Same(r0, r1) && string(s) != "null" {
+				return c06Differ("AmountFromString/UnmarshalText", r0, r1)
+			}
+			y := c06Sentinel
+			r2 := c06Read(y, y.UnmarshalJSON(s))
+			z := c06Sentinel
+			r3 := c06Read(z, z.UnmarshalJSON(q))
+			px := c06PctSentinel
+			r4 := c06ReadPct(px, px.UnmarshalText(s))
+			if r0 := c06ReadPct(num.PercentageFromString(string(s))); !c06Same(r0, r4) && string(s) != "null" {
+				return c06Differ("PercentageFromString/UnmarshalText", r0, r4)
+			}
+			py := c06PctSentinel
+			r5 := c06ReadPct(py, py.UnmarshalJSON(s))
+			pz := c06PctSentinel
+			r6 := c06ReadPct(pz, pz.UnmarshalJSON(q))
+			f := []V{VS("f")}
+			if len(a) > 2 && a[2].Kind == 's' && len(a[2].S) > 0 {
+				st := struct {
+					A num.Amount     `json:"a"`
+					P num.Percentage `json:"p"`
+				}{c06Sentinel, c06PctSentinel}
+				err := json.Unmarshal([]byte(`{"a":`+string(a[2].S)+`}`), &st)
+				f = append(f, c06Read(st.A, err))
+				st.A, st.P = c06Sentinel, c06PctSentinel
+				err = json.Unmarshal([]byte(`{"p":`+string(a[2].S)+`}`), &st)
+				f = append(f, c06ReadPct(st.P, err))
+			}
+			return []V{r1, r2, r3, r4, r5, r6, VB(c06AmountRe.Match(s)), VB(c06PctRe.Match(s)), VL(f...)}
+		case "all_a", "all_p":
+			// the amount (all_a) or percentage (all_p) readers only: text, JSON bare, JSON quoted, ( f field )
+			s := a[1].S
+			q := append(append([]byte{'"'}, s...), '"')
+			f := []V{VS("f")}
+			if op == "all_a" {
+				x, y, z := c06Sentinel, c06Sentinel, c06Sentinel
+				r1 := c06Read(x, x.UnmarshalText(s))
+				r2 := c06Read(y, y.UnmarshalJSON(s))
+				r3 := c06Read(z, z.UnmarshalJSON(q))
+				if len(a) > 2 && a[2].Kind == 's' && len(a[2].S) > 0 {
+					st := struct {
+						A num.Amount `json:"a"`
+					}{c06Sentinel}
+					err := json.Unmarshal([]byte(`{"a":`+string(a[2].S)+`}`), &st)
+					f = append(f, c06Read(st.A, err))
+				}
+				return []V{r1, r2, r3, VL(f...)}
+			}
+			x, y, z := c06PctSentinel, c06PctSentinel, c06PctSentinel
+			r1 := c06ReadPct(x, x.UnmarshalText(s))
+			r2 := c06ReadPct(y, y.UnmarshalJSON(s))
+			r3 := c06ReadPct(z, z.UnmarshalJSON(q))
+			if len(a) > 2 && a[2].Kind == 's' && len(a[2].S) > 0 {
+				st := struct {
+					A num.Percentage `json:"a"`
+				}{c06PctSentinel}
+				err := json.Unmarshal([]byte(`{"a":`+string(a[2].S)+`}`), &st)
+				f = append(f, c06ReadPct(st.A, err))
+			}
+			return []V{r1, r2, r3, VL(f...)}
 		case "matches":
 			return []V{VB(c06AmountRe.Match(a[1].S))}
 		case "pct_matches":
